@@ -208,7 +208,7 @@ def object_states(node, do):
 
 def ident_of(name: str) -> str:
     """Worker-invariant identity of a test: its name without the trailing nets variant (own normalisation)."""
-    return re.sub(r"\.nets\..*$", "", name)
+    return re.sub(r"\.nets\.[^.]+\.[^.]+", "", name)
 
 
 class Env:
@@ -432,10 +432,10 @@ def _install_patches(stack):
 
 
 class Execution:
-    __slots__ = ("choices", "points", "trace", "exc", "exc_type", "final", "snapshots", "steps", "vtime")
+    __slots__ = ("choices", "points", "trace", "exc", "exc_type", "final", "snapshots", "steps", "vtime", "graph", "swarms")
 
 
-def execute(scn: Scenario, prefix=(), want_snapshots=False) -> Execution:
+def execute(scn: Scenario, prefix=(), want_snapshots=False, keep_graph=False) -> Execution:
     """One complete execution of the scenario under the given choice prefix (defaults afterwards)."""
     global ENV
     import contextlib
@@ -522,6 +522,7 @@ def execute(scn: Scenario, prefix=(), want_snapshots=False) -> Execution:
     except Exception as e:  # noqa: BLE001
         x.final["all_ok"] = f"exc {e}"
     loop.shutdown()
+    x.graph, x.swarms = (g, swarms) if keep_graph else (None, None)
     return x
 
 
